@@ -25,6 +25,8 @@ package baseapp
 //@   ensures [at-most-one-handler] handlerN == old(handlerN) || handlerN == old(handlerN) + 1
 //@   ensures [never-writes-a-cache] cmsWriteN == old(cmsWriteN) && anteN == old(anteN) && anteAbort == old(anteAbort)
 //@   ensures [handler-result-code] handlerN != old(handlerN) ==> result.Code == handlerCode
+//@   ensures [handler-on-the-given-context] handlerN != old(handlerN) ==> handlerIsolated == isCacheLayer(dyn(ctx, types.Context).ms)
+//@   ensures [ante-untouched] anteIsolated == old(anteIsolated)
 
 // runTx (non-panicking executions): only DeliverTx ever flushes a cache layer; an aborting ante
 // handler flushes nothing and runs no message; a failing message keeps the ante effects (fee) but
@@ -35,6 +37,8 @@ package baseapp
 //@   logs runTxN == old(runTxN) + 1
 //@   logs runTxMode == mode
 //@   ensures [only-deliver-writes] mode != 2 ==> cmsWriteN == old(cmsWriteN)
+//@   ensures [simulate-isolated] mode == 1 && handlerN != old(handlerN) ==> handlerIsolated
+//@   ensures [ante-isolated] anteN != old(anteN) ==> anteIsolated
 //@   ensures [check-runs-no-handler] mode == 0 ==> handlerN == old(handlerN)
 //@   ensures [abort-runs-nothing] anteN != old(anteN) && anteAbort ==> cmsWriteN == old(cmsWriteN) && handlerN == old(handlerN)
 //@   ensures [deliver-keeps-fee-on-msg-failure] mode == 2 && anteN != old(anteN) && !anteAbort ==> cmsWriteN >= old(cmsWriteN) + 1
